@@ -19,8 +19,73 @@ func (e *Engine) sprintfTerm(format string, args, sorts []string) string {
 		e.lits["\x00fmt\x00"+key] = name
 		e.ufunc(name, sorts, "Str")
 		e.fmtOf = append(e.fmtOf, [2]string{name, format})
+		e.fmtDefs = append(e.fmtDefs, e.sprintfDef(name, format, sorts))
 	}
 	return app(name, args...)
+}
+
+// sprintfDef gives the meaning of a format made of literal text, %s (string operand), %d (integer operand) and %%
+// only: the concatenation of its segments, right-nested, so that two formats that spell the same text agree. Other
+// formats stay uninterpreted.
+func (e *Engine) sprintfDef(name, format string, sorts []string) string {
+	var segs []string
+	lit := ""
+	k := 0
+	flush := func() {
+		if lit != "" {
+			segs = append(segs, e.lit(lit))
+			lit = ""
+		}
+	}
+	for i := 0; i < len(format); i++ {
+		ch := format[i]
+		if ch != '%' {
+			lit += string(ch)
+			continue
+		}
+		i++
+		if i >= len(format) {
+			return ""
+		}
+		switch format[i] {
+		case '%':
+			lit += "%"
+		case 's':
+			if k >= len(sorts) || sorts[k] != "Str" {
+				return ""
+			}
+			flush()
+			segs = append(segs, fmt.Sprintf("a!%d", k))
+			k++
+		case 'd':
+			if k >= len(sorts) || sorts[k] != "Int" {
+				return ""
+			}
+			flush()
+			segs = append(segs, fmt.Sprintf("(itoa a!%d)", k))
+			k++
+		default:
+			return ""
+		}
+	}
+	flush()
+	if k != len(sorts) || len(sorts) == 0 {
+		return ""
+	}
+	body := e.lit("")
+	if len(segs) > 0 {
+		body = segs[len(segs)-1]
+		for j := len(segs) - 2; j >= 0; j-- {
+			body = "(sconcat " + segs[j] + " " + body + ")"
+		}
+	}
+	var bs, as []string
+	for j, so := range sorts {
+		bs = append(bs, fmt.Sprintf("(a!%d %s)", j, so))
+		as = append(as, fmt.Sprintf("a!%d", j))
+	}
+	call := app(name, as...)
+	return "(assert (forall (" + strings.Join(bs, " ") + ") (! (= " + call + " " + body + ") :pattern (" + call + "))))\n"
 }
 
 func (f *Frame) execCall(i *ssa.Call, st *State, r *string) Val {
